@@ -1678,6 +1678,23 @@ func ruleHS1(c *Ctx) *rule {
 		}
 		// comparator
 		verdict, why := t.comparatorWholeElement(sorts[0])
+		if strings.HasPrefix(verdict, "field:") {
+			// elements are structs ordered by one field: every other field of the element that reaches the digest is left in
+			// arrival order among elements that tie on the compared one
+			compared := strings.TrimPrefix(verdict, "field:")
+			owner := compared[:strings.LastIndexByte(compared, '.')+1]
+			var ignored []string
+			for _, k := range dres.fieldKeys() {
+				if strings.HasPrefix(k, owner) && k != compared {
+					ignored = append(ignored, k)
+				}
+			}
+			if len(ignored) > 0 {
+				verdict, why = vViolation, why+"; "+strings.Join(ignored, ", ")+" also reach the digest: elements that tie on the compared field (files with identical content) keep their arrival order, which depends on the scheduler"
+			} else {
+				verdict = vOK
+			}
+		}
 		switch verdict {
 		case vOK:
 			r.ok(key, c.ipos(sorts[0]), "sorted before use; "+why)
@@ -1799,6 +1816,30 @@ func lessIsWholeElement(f *ssa.Function, recv, pi, pj ssa.Value) (string, string
 	a0, a1 := call.Common().Args[0], call.Common().Args[1]
 	if (isElem(a0, pi) && isElem(a1, pj)) || (isElem(a0, pj) && isElem(a1, pi)) {
 		return vOK, "Less is " + cn + " over whole elements"
+	}
+	// one field of struct elements on both sides
+	fieldOfElem := func(v ssa.Value, idx ssa.Value) string {
+		for _, o := range origins(v) {
+			u, ok := o.(*ssa.UnOp)
+			if !ok || u.Op != token.MUL {
+				return ""
+			}
+			fa, ok := u.X.(*ssa.FieldAddr)
+			if !ok {
+				return ""
+			}
+			ia, ok := fa.X.(*ssa.IndexAddr)
+			if !ok || ia.Index != idx {
+				return ""
+			}
+			return fieldKey(fa)
+		}
+		return ""
+	}
+	for _, pair := range [][2]ssa.Value{{pi, pj}, {pj, pi}} {
+		if f0, f1 := fieldOfElem(a0, pair[0]), fieldOfElem(a1, pair[1]); f0 != "" && f0 == f1 {
+			return "field:" + f0, "Less is " + cn + " over the field " + f0 + " of the elements"
+		}
 	}
 	// a slice / index / len of an element: partial comparison
 	for _, a := range []ssa.Value{a0, a1} {
